@@ -6,7 +6,7 @@ use std::io;
 use std::os::unix::fs::FileExt;
 use std::sync::{Arc, Mutex, Weak};
 
-use feoxdb::verif::{Controller, SimDevice};
+use feoxdb::verif::{Controller, RingCqe, RingSqe, SimDevice, SimRing};
 use serde::{Deserialize, Serialize};
 
 use crate::sched::Sim;
@@ -31,6 +31,13 @@ pub enum FaultKind {
     FsyncFailAfter,
     /// read fails
     ReadFail,
+    /// io_uring_enter fails with an errno other than EINTR: the kernel may have taken any prefix of
+    /// the queued entries and may execute them at any later time (indeterminate)
+    RingEnterFail,
+    /// io_uring_enter is interrupted while waiting: everything was submitted, some completions are in
+    RingEintr,
+    /// a push finds the submission queue full
+    RingSqFull,
 }
 
 pub const ALL_WRITE_FAULTS: [FaultKind; 4] = [
@@ -40,6 +47,7 @@ pub const ALL_WRITE_FAULTS: [FaultKind; 4] = [
     FaultKind::WriteNoSpace,
 ];
 pub const ALL_FSYNC_FAULTS: [FaultKind; 2] = [FaultKind::FsyncFail, FaultKind::FsyncFailAfter];
+pub const ALL_ENTER_FAULTS: [FaultKind; 2] = [FaultKind::RingEnterFail, FaultKind::RingEintr];
 
 #[derive(Clone, Debug, Serialize, Deserialize, Default)]
 pub struct FaultPlan {
@@ -69,6 +77,8 @@ pub enum DevOp {
     Read,
     Write,
     Fsync,
+    /// io_uring_enter of the simulated ring (a device call of its own: scheduling, crash and fault point)
+    Enter,
 }
 
 #[derive(Clone, Debug, Serialize)]
@@ -124,12 +134,43 @@ struct State {
     dirty_file: bool,
     /// (sector, blocks) ranges that must never be written (C08 pinned extents are checked live)
     monitor_writes: bool,
+    /// 0: no ring (synchronous path), 1: simulated io_uring, 2: ring and O_DIRECT behaviour
+    ring_mode: u8,
+    /// entries the kernel has taken and not completed yet
+    ring_inflight: Vec<Inflight>,
+    /// entries the kernel still owned when the ring was closed: it may read their memory at any later time
+    ring_orphans: Vec<Inflight>,
+    enters: u64,
+    ring_writes: u64,
+    ring_orphans_total: u64,
+    ring_late_reads: u64,
+}
+
+#[derive(Clone, Copy)]
+struct Inflight {
+    sqe: RingSqe,
+    /// checksum of the memory at submission: a buffer the kernel owns must not change
+    sum: u64,
+}
+
+fn ring_sum(sqe: &RingSqe) -> u64 {
+    // the simulated kernel reads the caller's memory exactly as the real one does (under
+    // AddressSanitizer a read of freed memory is reported here)
+    let bytes = unsafe { std::slice::from_raw_parts(sqe.ptr, sqe.len as usize) };
+    let mut h = 0xcbf2_9ce4_8422_2325u64;
+    for chunk in bytes.chunks(8) {
+        let mut w = [0u8; 8];
+        w[..chunk.len()].copy_from_slice(chunk);
+        h = (h ^ u64::from_le_bytes(w)).wrapping_mul(0x1000_0000_01b3).rotate_left(23);
+    }
+    h
 }
 
 /// Asked after every successful write with the block range it covered; `Some(detail)` is a violation.
 pub type WriteGuard = Box<dyn Fn(u64, u64) -> Option<String> + Send + Sync>;
 
 pub struct SimDisk {
+    me: Weak<SimDisk>,
     sim: Weak<Sim>,
     file: File,
     pub label: String,
@@ -144,6 +185,10 @@ pub struct DiskStats {
     pub fsyncs: u64,
     pub calls: u64,
     pub faults_fired: std::collections::BTreeMap<String, u64>,
+    /// simulated io_uring: enter calls, writes executed through the ring, entries orphaned by a
+    /// closed ring, late reads of orphaned entries
+    #[serde(default)]
+    pub ring: [u64; 4],
 }
 
 impl SimDisk {
@@ -158,7 +203,8 @@ impl SimDisk {
     }
 
     pub fn from_image(sim: &Arc<Sim>, file: File, image: Vec<u8>, label: &str) -> Arc<SimDisk> {
-        Arc::new(SimDisk {
+        Arc::new_cyclic(|me| SimDisk {
+            me: me.clone(),
             sim: Arc::downgrade(sim),
             file,
             label: label.to_string(),
@@ -183,6 +229,13 @@ impl SimDisk {
                 written_blocks: Vec::new(),
                 dirty_file: false,
                 monitor_writes: false,
+                ring_mode: 0,
+                ring_inflight: Vec::new(),
+                ring_orphans: Vec::new(),
+                enters: 0,
+                ring_writes: 0,
+                ring_orphans_total: 0,
+                ring_late_reads: 0,
             }),
             write_guard: Mutex::new(None),
         })
@@ -203,6 +256,40 @@ impl SimDisk {
         s.size = len;
         s.cache = image.clone();
         s.durable = image;
+    }
+
+    /// 0: synchronous path, 1: simulated io_uring, 2: simulated io_uring with O_DIRECT behaviour.
+    /// Takes effect at the next open of the device.
+    pub fn set_ring_mode(&self, mode: u8) {
+        self.state.lock().unwrap().ring_mode = mode;
+    }
+
+    /// (enter calls, writes executed through the ring, entries orphaned by a closed ring, late reads of orphans)
+    pub fn ring_stats(&self) -> (u64, u64, u64, u64) {
+        let s = self.state.lock().unwrap();
+        (s.enters, s.ring_writes, s.ring_orphans_total, s.ring_late_reads)
+    }
+
+    /// The kernel gets round to the entries it still owned when their ring was closed: it reads
+    /// their memory now. The store has long moved on; if it released those buffers the read hits
+    /// freed (AddressSanitizer) or reused memory (checksum).
+    pub fn ring_finish(&self) {
+        let orphans = std::mem::take(&mut self.state.lock().unwrap().ring_orphans);
+        for o in orphans {
+            let now = ring_sum(&o.sqe);
+            self.state.lock().unwrap().ring_late_reads += 1;
+            if now != o.sum {
+                if let Some(sim) = self.sim.upgrade() {
+                    sim.violation(
+                        "inflight-buffer-reused",
+                        format!(
+                            "the {} bytes queued for offset {} changed after the ring that carried them was closed with the write still owned by the kernel: the buffer was released or reused while the kernel may still read it",
+                            o.sqe.len, o.sqe.offset
+                        ),
+                    );
+                }
+            }
+        }
     }
 
     pub fn set_plan(&self, plan: FaultPlan) {
@@ -301,6 +388,7 @@ impl SimDisk {
             writes: s.writes,
             fsyncs: s.fsyncs,
             calls: s.calls,
+            ring: [s.enters, s.ring_writes, s.ring_orphans_total, s.ring_late_reads],
             faults_fired: s
                 .faults_fired
                 .iter()
@@ -326,6 +414,7 @@ impl SimDisk {
                     DevOp::Write => ALL_WRITE_FAULTS.contains(k),
                     DevOp::Fsync => ALL_FSYNC_FAULTS.contains(k),
                     DevOp::Read => *k == FaultKind::ReadFail,
+                    DevOp::Enter => ALL_ENTER_FAULTS.contains(k),
                 }
         }) {
             return Some(s.plan.at_call[pos].1);
@@ -341,6 +430,7 @@ impl SimDisk {
                 DevOp::Write => Some(FaultKind::WriteFailBefore),
                 DevOp::Fsync => Some(FaultKind::FsyncFail),
                 DevOp::Read => None,
+                DevOp::Enter => None,
             };
         }
         if s.plan.random_per_mille > 0 && call < s.plan.random_until_call {
@@ -353,6 +443,7 @@ impl SimDisk {
                     DevOp::Write => ALL_WRITE_FAULTS.contains(k),
                     DevOp::Fsync => ALL_FSYNC_FAULTS.contains(k),
                     DevOp::Read => *k == FaultKind::ReadFail,
+                    DevOp::Enter => ALL_ENTER_FAULTS.contains(k),
                 })
                 .collect();
             if !kinds.is_empty() {
@@ -376,6 +467,7 @@ impl SimDisk {
             DevOp::Read => "io.read",
             DevOp::Write => "io.write",
             DevOp::Fsync => "io.fsync",
+            DevOp::Enter => "io.uring_enter",
         });
         let mut s = self.state.lock().unwrap();
         if let Some(at) = s.plan.crash_at_call {
@@ -404,6 +496,7 @@ impl SimDisk {
                     DevOp::Read => 1,
                     DevOp::Write => 2,
                     DevOp::Fsync => 3,
+                    DevOp::Enter => 4,
                 })
                 ^ if ev.ok { 0 } else { 0x8000_0000_0000_0000 },
         );
@@ -417,49 +510,13 @@ fn eio() -> io::Error {
     io::Error::from_raw_os_error(libc::EIO)
 }
 
-impl SimDevice for SimDisk {
-    fn read(&self, offset: u64, len: usize) -> io::Result<Vec<u8>> {
-        let sim = self.sim.upgrade().ok_or_else(eio)?;
-        self.begin_call(&sim, DevOp::Read)?;
-        let event = sim.next_event();
-        let mut s = self.state.lock().unwrap();
-        let fault = self.decide_fault(&mut s, &sim, DevOp::Read);
-        let call = s.calls;
-        s.calls += 1;
-        s.reads += 1;
-        let lat = s.read_lat_ns;
-        let result = if fault.is_some() {
-            *s.faults_fired.entry(FaultKind::ReadFail).or_insert(0) += 1;
-            Err(eio())
-        } else {
-            let start = offset as usize;
-            match start.checked_add(len) {
-                Some(end) if end <= s.size => Ok(s.cache[start..end].to_vec()),
-                _ => Err(io::Error::new(
-                    io::ErrorKind::UnexpectedEof,
-                    "read past the end of the device",
-                )),
-            }
-        };
-        let ev = DevEvent {
-            event,
-            call,
-            thread: sim.current_thread(),
-            op: DevOp::Read,
-            offset,
-            len,
-            fault,
-            ok: result.is_ok(),
-        };
-        self.record(&mut s, &sim, ev);
-        drop(s);
-        sim.charge(lat);
-        result
-    }
-
-    fn write(&self, offset: u64, data: &[u8]) -> io::Result<()> {
-        let sim = self.sim.upgrade().ok_or_else(eio)?;
-        self.begin_call(&sim, DevOp::Write)?;
+impl SimDisk {
+    /// `write` plus the number of bytes that reached the page cache (a short write applies a prefix).
+    fn write_counted(&self, offset: u64, data: &[u8]) -> (io::Result<()>, usize) {
+        let Some(sim) = self.sim.upgrade() else { return (Err(eio()), 0) };
+        if let Err(e) = self.begin_call(&sim, DevOp::Write) {
+            return (Err(e), 0);
+        }
         let event = sim.next_event();
         let mut s = self.state.lock().unwrap();
         let mut fault = self.decide_fault(&mut s, &sim, DevOp::Write);
@@ -480,10 +537,12 @@ impl SimDevice for SimDisk {
         let in_bounds = start
             .checked_add(data.len())
             .is_some_and(|end| end <= s.size);
+        let mut applied = 0usize;
         let mut apply = |s: &mut State, bytes: &[u8]| {
             if bytes.is_empty() {
                 return;
             }
+            applied = bytes.len();
             s.cache[start..start + bytes.len()].copy_from_slice(bytes);
             s.unsynced.push(PendingWrite {
                 offset,
@@ -578,7 +637,199 @@ impl SimDevice for SimDisk {
         self.record(&mut s, &sim, ev);
         drop(s);
         sim.charge(lat);
+        (result, applied)
+    }
+}
+
+impl SimRing for SimDisk {
+    fn capacity(&self) -> usize {
+        256
+    }
+
+    fn direct_io(&self) -> bool {
+        self.state.lock().unwrap().ring_mode == 2
+    }
+
+    fn push_allowed(&self, queued: usize) -> bool {
+        let Some(sim) = self.sim.upgrade() else { return true };
+        let mut s = self.state.lock().unwrap();
+        // only as a random fault, and never for the first entry of a batch (an empty queue is never full)
+        if queued == 0 || s.plan.random_per_mille == 0 || s.calls >= s.plan.random_until_call || !s.plan.random_kinds.contains(&FaultKind::RingSqFull) {
+            return true;
+        }
+        let rate = s.plan.random_per_mille;
+        if sim.fault_draw(|t: &mut Tape| t.chance(rate, 4000)) {
+            *s.faults_fired.entry(FaultKind::RingSqFull).or_insert(0) += 1;
+            return false;
+        }
+        true
+    }
+
+    fn enter(&self, submitted: Vec<RingSqe>, want: usize, completions: &mut std::collections::VecDeque<RingCqe>) -> io::Result<usize> {
+        let sim = self.sim.upgrade().ok_or_else(eio)?;
+        // a dead device (after the crash instant) fails the call; nothing it was given is ever executed
+        self.begin_call(&sim, DevOp::Enter)?;
+        let event = sim.next_event();
+        let n = submitted.len();
+        let (fault, direct, mut batch) = {
+            let mut s = self.state.lock().unwrap();
+            let fault = self.decide_fault(&mut s, &sim, DevOp::Enter);
+            let call = s.calls;
+            s.calls += 1;
+            s.enters += 1;
+            if let Some(kind) = fault {
+                *s.faults_fired.entry(kind).or_insert(0) += 1;
+            }
+            let ev = DevEvent { event, call, thread: sim.current_thread(), op: DevOp::Enter, offset: want as u64, len: n, fault, ok: fault.is_none() };
+            self.record(&mut s, &sim, ev);
+            let taken: Vec<Inflight> = submitted.iter().map(|sqe| Inflight { sqe: *sqe, sum: ring_sum(sqe) }).collect();
+            s.ring_inflight.extend(taken);
+            (fault, s.ring_mode == 2, std::mem::take(&mut s.ring_inflight))
+        };
+        match fault {
+            Some(FaultKind::RingEnterFail) => {
+                // which of the queued entries the kernel took is unknown to the caller: a prefix of them
+                // stays in flight (the kernel may execute them, or read their memory, at any later time)
+                let old = batch.len() - n;
+                let keep = old + sim.fault_draw(|t: &mut Tape| t.below(n as u32 + 1) as usize);
+                batch.truncate(keep);
+                self.state.lock().unwrap().ring_inflight = batch;
+                let errno = sim.fault_draw(|t: &mut Tape| *t.pick(&[libc::EBADF, libc::ENOMEM, libc::EAGAIN, libc::EBUSY, libc::EIO]));
+                return Err(io::Error::from_raw_os_error(errno));
+            }
+            Some(FaultKind::RingEintr) => {
+                // interrupted while waiting: everything was submitted, a random part has completed
+                let done = sim.fault_draw(|t: &mut Tape| t.below(batch.len() as u32 + 1) as usize);
+                shuffle(&sim, &mut batch);
+                let rest = batch.split_off(done);
+                for e in batch {
+                    self.execute(&sim, &e, direct, completions);
+                }
+                self.state.lock().unwrap().ring_inflight.extend(rest);
+                return Err(io::Error::from_raw_os_error(libc::EINTR));
+            }
+            _ => {}
+        }
+        // completion order (and with it the order in which the writes reach the device) is the kernel's choice
+        shuffle(&sim, &mut batch);
+        for e in batch {
+            self.execute(&sim, &e, direct, completions);
+        }
+        Ok(n)
+    }
+
+    fn closed(&self) {
+        let Some(sim) = self.sim.upgrade() else { return };
+        let left = std::mem::take(&mut self.state.lock().unwrap().ring_inflight);
+        if left.is_empty() {
+            return;
+        }
+        // the kernel still owns these entries. Some are executed now (they reach the page cache like
+        // any other write, without telling anybody), the others it will read later (`ring_finish`).
+        let dead = self.state.lock().unwrap().dead;
+        for e in left {
+            let now = !dead && sim.fault_draw(|t: &mut Tape| t.chance(1, 3));
+            let mut s = self.state.lock().unwrap();
+            s.ring_orphans_total += 1;
+            if now && ring_sum(&e.sqe) == e.sum {
+                let bytes = unsafe { std::slice::from_raw_parts(e.sqe.ptr, e.sqe.len as usize) }.to_vec();
+                let start = e.sqe.offset as usize;
+                if start.checked_add(bytes.len()).is_some_and(|end| end <= s.size) {
+                    s.cache[start..start + bytes.len()].copy_from_slice(&bytes);
+                    let event = sim.next_event();
+                    s.unsynced.push(PendingWrite { offset: e.sqe.offset, data: bytes, event, limbo: true });
+                    s.dirty_file = true;
+                }
+            } else {
+                s.ring_orphans.push(e);
+            }
+        }
+    }
+}
+
+fn shuffle(sim: &Arc<Sim>, v: &mut [Inflight]) {
+    for i in (1..v.len()).rev() {
+        let j = sim.fault_draw(|t: &mut Tape| t.below(i as u32 + 1) as usize);
+        v.swap(i, j);
+    }
+}
+
+impl SimDisk {
+    /// The kernel executes one queued write and posts its completion.
+    fn execute(&self, sim: &Arc<Sim>, e: &Inflight, direct: bool, completions: &mut std::collections::VecDeque<RingCqe>) {
+        if ring_sum(&e.sqe) != e.sum {
+            sim.violation(
+                "inflight-buffer-reused",
+                format!("the {} bytes queued for offset {} changed between submission and execution", e.sqe.len, e.sqe.offset),
+            );
+        }
+        let len = e.sqe.len as usize;
+        let result = if direct && (e.sqe.ptr as usize % SECTOR != 0 || len % SECTOR != 0 || e.sqe.offset % SECTOR as u64 != 0) {
+            // O_DIRECT: misaligned memory, length or offset is refused
+            -libc::EINVAL
+        } else {
+            let bytes = unsafe { std::slice::from_raw_parts(e.sqe.ptr, len) }.to_vec();
+            self.state.lock().unwrap().ring_writes += 1;
+            match self.write_counted(e.sqe.offset, &bytes) {
+                (Ok(()), _) => len as i32,
+                // a short write completes with the (positive) number of bytes written
+                (Err(err), applied) if applied > 0 && applied < len && err.kind() == io::ErrorKind::UnexpectedEof => applied as i32,
+                (Err(err), _) => -err.raw_os_error().unwrap_or(libc::EIO),
+            }
+        };
+        completions.push_back(RingCqe { user_data: e.sqe.user_data, result });
+    }
+}
+
+impl SimDevice for SimDisk {
+    fn read(&self, offset: u64, len: usize) -> io::Result<Vec<u8>> {
+        let sim = self.sim.upgrade().ok_or_else(eio)?;
+        self.begin_call(&sim, DevOp::Read)?;
+        let event = sim.next_event();
+        let mut s = self.state.lock().unwrap();
+        let fault = self.decide_fault(&mut s, &sim, DevOp::Read);
+        let call = s.calls;
+        s.calls += 1;
+        s.reads += 1;
+        let lat = s.read_lat_ns;
+        let result = if fault.is_some() {
+            *s.faults_fired.entry(FaultKind::ReadFail).or_insert(0) += 1;
+            Err(eio())
+        } else {
+            let start = offset as usize;
+            match start.checked_add(len) {
+                Some(end) if end <= s.size => Ok(s.cache[start..end].to_vec()),
+                _ => Err(io::Error::new(
+                    io::ErrorKind::UnexpectedEof,
+                    "read past the end of the device",
+                )),
+            }
+        };
+        let ev = DevEvent {
+            event,
+            call,
+            thread: sim.current_thread(),
+            op: DevOp::Read,
+            offset,
+            len,
+            fault,
+            ok: result.is_ok(),
+        };
+        self.record(&mut s, &sim, ev);
+        drop(s);
+        sim.charge(lat);
         result
+    }
+
+    fn ring(&self) -> Option<Arc<dyn SimRing>> {
+        if self.state.lock().unwrap().ring_mode == 0 {
+            return None;
+        }
+        self.me.upgrade().map(|me| me as Arc<dyn SimRing>)
+    }
+
+    fn write(&self, offset: u64, data: &[u8]) -> io::Result<()> {
+        self.write_counted(offset, data).0
     }
 
     fn fsync(&self) -> io::Result<()> {
